@@ -237,6 +237,10 @@ def _hmap(cname, field, vty):
 for _k, (_c, _f, _t, _nat) in _HMAPS.items():
     CLASSES["Instantiator"].derived[_k] = _hmap(_c, _f, _t)
     CLASSES["Instantiator"].views[_k] = (lambda nat: (lambda o: _LiveMap(nat)))(_nat)
+# every location key (the predicate quantifies "for every key of location_to_master" as "for every key k: k in it => ...": the dict is never
+# iterated in order); natively: the keys of all cached models
+CLASSES["Instantiator"].derived["all_keys"] = lambda ex, st, self: Val(Set(KEY), z3.K(KEY.sort(), z3.BoolVal(True)))
+CLASSES["Instantiator"].views["all_keys"] = lambda o: {k for v in o.glyph_mutators.values() for k in v.location_to_master}
 
 from .c19 import items_of, lockey, mathglyph_of, nhas, norm_pairs, src_data  # noqa: E402,F401  (used by the predicate, natively and when it is unfolded)
 
@@ -245,17 +249,17 @@ from .c19 import items_of, lockey, mathglyph_of, nhas, norm_pairs, src_data  # n
 # one atom (the entries of the other glyphs are carried through unchanged, at no cost), applied to the glyph at hand it is given its definition.
 @specfn(
     BOOL, V=Ref("Variator"), n=STR, L=LAYERS, idx=INT, bounds=BOUNDS, axis_order=List(STR),
-    HVM=Map(Ref("Variator"), List(Ref("MathObj"))), HVMOD=Map(Ref("Variator"), Ref("VariationModel")), HVF=Map(Ref("Variator"), Dict(KEY, Ref("MathObj"))),
+    U=Set(KEY), HVM=Map(Ref("Variator"), List(Ref("MathObj"))), HVMOD=Map(Ref("Variator"), Ref("VariationModel")), HVF=Map(Ref("Variator"), Dict(KEY, Ref("MathObj"))),
     HVW=Map(Ref("Variator"), Map(KEY, INT)), HLOC=Map(Ref("VariationModel"), List(Ref("Location"))), HAXO=Map(Ref("VariationModel"), List(STR)),
     HP=Map(Ref("Location"), KEY), HD=Map(Ref("MathObj"), MDATA), HK=Map(Ref("MathObj"), INT), z=INT,
 )
-def variator_ok(V, n, L, idx, bounds, axis_order, HVM, HVMOD, HVF, HVW, HLOC, HAXO, HP, HD, HK, z):
+def variator_ok(V, n, L, idx, bounds, axis_order, U, HVM, HVMOD, HVF, HVW, HLOC, HAXO, HP, HD, HK, z):
     """V is the Variator that Variator.from_masters(collect_glyph_masters(L, n, bounds, idx), axis_order) builds from the source layers L:
     MathGlyphs only; the model over the masters' locations in the given axis order; every master filed under the key of its own location and
     every key leading to a master at that location; and, unless empty masters are dropped for this glyph, exactly one master per layer that
     has the glyph, in source order, wrapping THAT glyph at ITS normalized location."""
     if z > 0:
-        return variator_ok(V, n, L, idx, bounds, axis_order, HVM, HVMOD, HVF, HVW, HLOC, HAXO, HP, HD, HK, z - 1)
+        return variator_ok(V, n, L, idx, bounds, axis_order, U, HVM, HVMOD, HVF, HVW, HLOC, HAXO, HP, HD, HK, z - 1)
     masters = HVM[V]
     locs = HLOC[HVMOD[V]]
     filed = HVF[V]
@@ -266,9 +270,9 @@ def variator_ok(V, n, L, idx, bounds, axis_order, HVM, HVMOD, HVF, HVW, HLOC, HA
         and len(locs) == len(masters)
         and HAXO[HVMOD[V]] == axis_order
         and all(HK[masters[k]] == 0 for k in range(len(masters)))
-        and all(HK[filed[k]] == 0 for k in filed)
+        and all((k not in filed) or HK[filed[k]] == 0 for k in U)
         and all(lockey(HP[locs[b]]) in filed for b in range(len(masters)))
-        and all(0 <= w[k] and w[k] < len(masters) and lockey(HP[locs[w[k]]]) == k and filed[k] == masters[w[k]] for k in filed)
+        and all((k not in filed) or (0 <= w[k] and w[k] < len(masters) and lockey(HP[locs[w[k]]]) == k and filed[k] == masters[w[k]]) for k in U)
         and (
             drops(L, idx, n)
             or (
@@ -288,7 +292,7 @@ def variator_ok(V, n, L, idx, bounds, axis_order, HVM, HVMOD, HVF, HVW, HLOC, HA
     )
 
 
-_VOK = "variator_ok({V}, {n}, self.source_layers, self.default_source_idx, self.axis_bounds, self.axis_order, " + ", ".join("self." + k for k in _HMAPS) + ", 0)"
+_VOK = "variator_ok({V}, {n}, self.source_layers, self.default_source_idx, self.axis_bounds, self.axis_order, self.all_keys, " + ", ".join("self." + k for k in _HMAPS) + ", 0)"
 
 
 def _nh(a, n="n"):
@@ -301,10 +305,8 @@ def cache_ok(n_domain="self.cached"):
     CURRENT source layers (so that a cache hit and a rebuild cannot differ)."""
     V = f"{_M}[n]"
     return {
-        # everything reachable from the cache exists (separates it from objects made later)
-        "cache.alive": f"all(allocated({V}) and allocated({V}.model) for n in {n_domain})",
+        # the fontMath objects held by the cached models exist (what Variator.instance_at requires; it separates them from the objects made later)
         "cache.alive-masters": f"all(all(allocated(m) for m in {V}.masters) for n in {n_domain})",
-        "cache.alive-locations": f"all(all(allocated(l) for l in {V}.model.origLocations) for n in {n_domain})",
         "cache.alive-filed": f"all(all(allocated({V}.location_to_master[k]) for k in {V}.location_to_master) for n in {n_domain})",
         # every entry is the Variator of its glyph over the current source layers
         "cache.built-from-current-sources": "all(" + _VOK.format(V=V, n="n") + f" for n in {n_domain})",
@@ -352,7 +354,8 @@ contract(
     # stepping stones on the cache-miss path: what the two callees say about the NEW Variator, in the vocabulary of the cache invariant
     hints={
         "glyph_mutator = self.glyph_mutators[glyph_name] = Variator.from_masters(sources, self.axis_order)": [
-            "all(allocated(m) for m in glyph_mutator.masters) and all(allocated(l) for l in glyph_mutator.model.origLocations)",
+            "all(allocated(m) for m in glyph_mutator.masters)",
+            "all(allocated(glyph_mutator.location_to_master[k]) for k in glyph_mutator.location_to_master)",
             "all(glyph_mutator.masters[k].kind == 0 for k in range(len(glyph_mutator.masters)))",
             "all(glyph_mutator.location_to_master[k].kind == 0 for k in glyph_mutator.location_to_master)",
             f"implies(not drops({_L}, {_IDX}, glyph_name), len(glyph_mutator.masters) == {_nh(f'len({_L})', 'glyph_name')} and all(implies(has_glyph({_L}, a, glyph_name),"
@@ -461,32 +464,7 @@ CONTRACTS["ufo2ft.instantiator:Instantiator.generate_glyph_instance#into"].runti
 # =====================================================================================================
 # 3. Instantiator.replace_source_layers: new layers in, every cached glyph model out
 # =====================================================================================================
-# Engine shim (requested in notes/C19.requests.md, item 11): `xs[:] = ys` (FULL slice, no bounds, no step) replaces the whole content of
-# the list in place.  For a list held in a heap field / local with value semantics that is the assignment of the new value to the same
-# holder (the way the engine already treats `xs.append(..)` / `xs.clear()` on such holders); every other slice stays unsupported.
-from pyvc.stmts import StmtMixin as _StmtMixin  # noqa: E402
-
-if not getattr(_StmtMixin.assign_target, "_c19_shim", False):
-    import ast as _ast
-
-    _orig_assign_target = _StmtMixin.assign_target
-
-    def _assign_target(self, t, v, st, node, mutate=False):
-        if isinstance(t, _ast.Subscript) and isinstance(t.slice, _ast.Slice) and t.slice.lower is None and t.slice.upper is None and t.slice.step is None:
-            recv = self.eval(t.value, st)
-            if isinstance(recv.ty, T.List) and not recv.is_py:
-                from pyvc.core import coerce
-
-                if isinstance(t.value, _ast.Name):
-                    self.check_alias(t.value.id, st, node)
-                return _orig_assign_target(self, t.value, coerce(v, recv.ty), st, node, mutate=True)
-        return _orig_assign_target(self, t, v, st, node, mutate)
-
-    _assign_target._c19_shim = True
-    _StmtMixin.assign_target = _assign_target
-    from pyvc.symex import Executor as _Executor
-
-    _Executor.assign_target = _assign_target
+# (`self.source_layers[:] = [...]`: full-slice assignment is native in the engine since 2026-10-02; the shim this file carried is gone)
 
 
 @trusted("c19.zip_strict", "ufo2ft.util.zip_strict(a, b) (= zip(a, b, strict=True)): the pairs (a0, b0), (a1, b1), ...; ValueError iff the lengths differ")
